@@ -63,6 +63,11 @@ where
     Ok(())
 }
 
+/// Anonymous blank nodes (`[ ... ]`) are nested at most this deep;
+/// a blank node that would be nested deeper is labelled, and described in a tree of its own
+/// (every level costs several stack frames: a long chain of blank nodes must not exhaust the stack).
+const MAX_BNODE_NESTING: usize = 64;
+
 struct Prettifier<'a, W> {
     dataset: &'a PrettifiableDataset<'a>,
     write: W,
@@ -76,6 +81,8 @@ struct Prettifier<'a, W> {
     )>,
     lists: BTreeMap<&'a SimpleTerm<'a>, Vec<&'a SimpleTerm<'a>>>,
     graph_range: Range<usize>,
+    nesting: usize,
+    deferred: Vec<usize>,
 }
 
 type SubjectsWithType<'a> = [(
@@ -115,6 +122,8 @@ impl<'a, W: Write> Prettifier<'a, W> {
             subject_types,
             lists,
             graph_range,
+            nesting: 0,
+            deferred: vec![],
         }
     }
 
@@ -150,6 +159,12 @@ impl<'a, W: Write> Prettifier<'a, W> {
             if *st != SubjectType::Root {
                 continue;
             }
+            self.write_tree(s)?;
+            self.subject_types[i].2 = SubjectType::Done;
+        }
+        // blank nodes that were too deeply nested to be described inline
+        while let Some(i) = self.deferred.pop() {
+            let (_, s, _) = self.subject_types[i];
             self.write_tree(s)?;
             self.subject_types[i].2 = SubjectType::Done;
         }
@@ -334,9 +349,16 @@ impl<'a, W: Write> Prettifier<'a, W> {
         } else if let Some(i) = self.find_st_index(bn) {
             let (_, s, st) = self.subject_types[i];
             match st {
+                SubjectType::SubTree if self.nesting >= MAX_BNODE_NESTING => {
+                    self.labelled.insert(bn);
+                    self.deferred.push(i);
+                    write!(self.write, "_:{}", bn.bnode_id().unwrap().as_str())?;
+                }
                 SubjectType::SubTree => {
                     self.write_bytes(b"[")?;
+                    self.nesting += 1;
                     self.write_properties(s)?;
+                    self.nesting -= 1;
                     self.write_bytes(b"]")?;
                     self.subject_types[i].2 = SubjectType::Done;
                 }
